@@ -58,7 +58,7 @@ def gen_script(r, max_steps):
                 tracked[i] = None
         elif p < 0.9:
             cmds = []
-            for _ in range(1 if r.random() < 0.8 else r.randint(2, 3)):
+            for _ in range(1 if r.random() < 0.7 else r.randint(2, 3)):
                 name = r.choice(list(OPS))
                 ins, outs = OPS[name]
                 if name == "Noop":
@@ -236,9 +236,41 @@ def run_script(ctx, sc, stratum="script"):
             do_add(st[1], si)
         elif k == "extend":
             ctx.feat("feature:extend")
-            for c in st[1]:
-                if not do_add(c, si, via_extend=True):
-                    break
+            cmds = st[1]
+            base = nadd[0]
+            independent = all(isinstance(a, int) or not (a[0] == "out" and a[1] >= base)
+                              for c in cmds[1:] for a in c["args"])
+            # the tracked indices a command names must be tracked when ITS turn comes: simulate on a copy
+            sim, all_tracked = list(model), True
+            for c in cmds:
+                for a in c["args"]:
+                    if isinstance(a, int) and not (a < len(sim) and sim[a] is not None):
+                        all_tracked = False
+            if len(cmds) >= 2 and independent and all_tracked:
+                # ONE extend(...) call for the whole group: later commands see the rebinding done by earlier ones
+                ctx.feat("feature:extend-many")
+                coms = [mk_op(c)(*[a if isinstance(a, int) else W[key(a)][0] for a in c["args"]]) for c in cmds]
+                ns = td.extend(*coms)
+                if len(ns) != len(cmds):
+                    bad("extend-result-length", si, len(cmds), len(ns))
+                    return info
+                for c, n in zip(cmds, ns):
+                    args = c["args"]
+                    pargs = [W[model[a]][1] if isinstance(a, int) else W[key(a)][1] for a in args]
+                    pn = pd.add_op(mk_op(c), *pargs)
+                    kk = nadd[0]
+                    nadd[0] += 1
+                    info["adds"] += 1
+                    nout = len(OPS[c["op"]][1]) if c["op"] != "Noop" else 1
+                    for j in range(max(nout, len(args))):
+                        W[("out", kk, j)] = (n.out(j), pn.out(j))
+                    for pos, a in enumerate(args):
+                        if isinstance(a, int):
+                            model[a] = ("out", kk, pos)
+            else:
+                for c in cmds:
+                    if not do_add(c, si, via_extend=True):
+                        break
         elif k == "set_tracked_outputs":
             ctx.feat("feature:set_tracked_outputs")
             td.set_tracked_outputs()
